@@ -64,6 +64,28 @@ def run(chk):
                                                                         'iteration counter'} | {f'loss term history [{k}]' for k in TERM_KEYS})),
                 construct="histories of an iteration")
 
+    # R6 "later entries are left untouched": untouched means still holding the initial content of the histories, which is zeros
+    chk.rule("C18.R6", "histories start as zeros of length n_iter (what the entries after a NaN stop still hold)", floor=1)
+
+    def go_hist0():
+        from ..alg import to_at
+        a = SolveAnalysis(chk.repo, validation=True, aux=True)
+        chk.files.update(a.E.w.files)
+        c = a.rec['init']
+        lc, so, crit = c[6], c[7], c[8]
+
+        def zeros(v, what):
+            v = to_at(v)
+            if not v.axes or v.axes[0] != 'n_iter' or any(not e.is_zero() for e in v.entries()):
+                raise Violation(what, str(v)[:140], "zeros with n_iter rows")
+        zeros(lc.fields['train_loss_values'], "initial total loss history")
+        for k in TERM_KEYS:
+            zeros(lc.fields['stored_loss_terms'][k], f"initial history of {k}")
+        zeros(so.fields['stored_params'].fields['eq_params']['a'], "initial tracked parameter history")
+        zeros(crit, "initial validation criterion history")
+        return "all histories start as zeros(n_iter, ...)"
+    chk.run("C18.R6", f"{SOLVE}:solve (history allocation)", {}, go_hist0, construct="initial histories")
+
     # R4 direct evaluation of the NaN test
     w = make_world(chk.repo)
     f = w.get("jinns.utils._utils", "_check_nan_in_pytree")
